@@ -50,7 +50,7 @@ def Binary.new (size : Nat) : Binary K V := { n := 0, heap := Array.replicate (s
 
 /-- `resize`: `newH := make([]*KeyValue, size); copy(newH, h.heap)` -/
 def resize (a : Array (Cell K V)) (size : Nat) : Array (Cell K V) :=
-  Array.ofFn (n := size) fun i => a.getD i.val none
+  (a.toList.take size ++ List.replicate (size - a.size) none).toArray
 
 /-- `h.heap[i].Key` / `.Val`: index check, then nil check -/
 def deref (a : Array (Cell K V)) (i : Nat) : Outcome (K × V) :=
